@@ -195,7 +195,14 @@ def run(chk, failed):
     chk.assumptions += [
         "processConsumerOffsetsMessage is driven directly (symbol pinned by TestKafkaClient_processConsumerOffsetsMessage_*) on a "
         "module built like fixtureModule(); App.StorageChannel is buffered so that TimeoutSendStorageRequest never drops",
-        "Go map iteration order inside one member is not modelled: owner updates of a message are compared as a sorted multiset",
+        "storage_in_time (hypothesis of every C07 statement about requests `produced`): each request is handed to "
+        "helpers.TimeoutSendStorageRequest(App.StorageChannel, req, 1), which drops it silently when storage does not take it "
+        "within one second; model and probe (buffered, drained channel) assume it is taken",
+        "Go map iteration order inside one member is not modelled: owner updates of a message are compared as a sorted multiset; "
+        "the order of requests ACROSS members (the model's list is in member order, and member order decides the final owner when "
+        "two members claim one partition) is therefore not compared with the code either",
+        "partitionConsumer's own `burrow-<name>` progress request per message is outside processConsumerOffsetsMessage and not "
+        "driven (exempt, DESIGN 4.10): at the channel in production a commit is followed by two SetConsumerOffset requests",
         "the allow/deny oracle is a pool of 6 patterns whose meaning is re-implemented in the driver; `re` cases compare it with "
         "the real regexp through acceptConsumerGroup",
         "httpserver.DeleteConsumerMetrics (Prometheus side effect of a metadata tombstone) is not modelled",
